@@ -99,6 +99,14 @@ def gen_case(rng, tier):
 
 
 def build(case):
+    m = _build(case)
+    # a history that ends in the case's own modality collection (other order in between): the drawn table follows the
+    # CURRENT collection's order
+    impl.prime_modality_order(m, case, lambda mm: None)
+    return m
+
+
+def _build(case):
     kind = case["kind"]
     if kind == "uni":
         return impl.build_uni(case)
